@@ -107,8 +107,7 @@ def flatten_sum(e):
     return [("expr", show(e))]
 
 
-def r4_rounding_order(ctx, P):
-    R = "C12.R4"
+def r4_rounding_order(ctx, P, R="C12.R4"):
     ctx.rule(R, "capacity hint = overhead + header + bytes (+ worst-case padding) + MIN_CHUNK_ALIGN slack in the tabled order; "
                 "size hint raised to the minimum; overhead subtraction followed by align_size")
     S = Sym(P, inline_depth=0)
